@@ -478,6 +478,73 @@ def fam_face_plane(ctx, rng):
             return
 
 
+def fam_face_plane_exact(ctx, rng):
+    """faces with 0..2 holes (concave outlines included) cut by a plane: the returned segments are, as a point set, exactly the
+    parts of the cut line inside the face - the crossings of all loops sorted along the line and paired.  Faces lie anywhere, also
+    around the world origin (where the base point of the plane/plane line falls between the crossings), and the cutter is in
+    general position or perpendicular to one of the face's own axes."""
+    face = Bd.face3d(rng, nholes=rng.choice([0, 1, 2, 2]), n=rng.choice([4, 6, 8, 10]))
+    where = rng.choice(['anywhere', 'around_origin'])
+    if where == 'around_origin':
+        c = face.center
+        face = face.move(V3((G.dy(-c.x + rng.uniform(-2, 2)), G.dy(-c.y + rng.uniform(-2, 2)), G.dy(-c.z + rng.uniform(-2, 2)))))
+    pl = face.plane
+    c = face.center
+    mode = rng.choice(['general', 'general', 'perp_x', 'perp_y'])
+    through = P3((G.dy(c.x + rng.uniform(-3, 3)), G.dy(c.y + rng.uniform(-3, 3)), G.dy(c.z + rng.uniform(-3, 3))))
+    cutter = Plane(Bd.plane(rng).n if mode == 'general' else (pl.x if mode == 'perp_x' else pl.y), through)
+    fam = 'face3d.plane_exact'
+    n, o = X.fpt(cutter.n), X.fpt(cutter.o)
+    loops = [[X.fpt(p) for p in face.boundary]] + [[X.fpt(p) for p in h] for h in (face.holes or ())]
+    d = X.cross(X.newell(loops[0]), n)
+    if X.norm2(d) == 0:
+        return
+    ts = []
+    for lp in loops:
+        side = [X.dot(n, X.sub(p, o)) for p in lp]
+        if any(abs(float(s_)) < 1e-6 for s_ in side):
+            return
+        for i in range(len(lp)):
+            a, b, sa, sb = lp[i - 1], lp[i], side[i - 1], side[i]
+            if (sa > 0) != (sb > 0):
+                t = sa / (sa - sb)
+                ts.append(X.dot(X.add(a, X.smul(t, X.sub(b, a))), d))
+    ts.sort()
+    dl = math.sqrt(float(X.norm2(d)))
+    exp = [(float(ts[i]) / dl, float(ts[i + 1]) / dl) for i in range(0, len(ts) - 1, 2)]
+    if any(b - a < 1e-4 for a, b in exp) or any(exp[i + 1][0] - exp[i][1] < 1e-4 for i in range(len(exp) - 1)):
+        return
+    desc = {'face': face.to_dict(), 'plane': cutter.to_dict(), 'mode': mode, 'where': where}
+    ctx.count(fam, key=(len(exp), len(loops) - 1, mode, where), sample={'pieces': len(exp), 'holes': len(loops) - 1, 'mode': mode, 'where': where},
+              nontrivial=len(exp) > 0)
+    try:
+        res = face.intersect_plane(cutter)
+    except Exception as e:
+        ctx.violation(fam + ':raises', '%r' % (e,), desc); return
+    got = []
+    for s_ in res or []:
+        a, b = float(X.dot(X.fpt(s_.p1), d)) / dl, float(X.dot(X.fpt(s_.p2), d)) / dl
+        if abs(b - a) > 1e-7:
+            got.append((min(a, b), max(a, b)))
+        for g in (s_.p1, s_.p2):
+            fg = X.fpt(g)
+            if abs(float(X.dot(n, X.sub(fg, o)))) > 1e-6 * 100 or abs(float(X.dot(X.fpt(pl.n), X.sub(fg, X.fpt(pl.o))))) > 1e-6 * 100:
+                ctx.violation(fam + ':off_operands', 'segment end %r is off one of the planes' % (g,), desc); return
+    got.sort()
+    merged = []
+    for a, b in got:            # pieces that abut (the cut passes a seam of the merged outline) are one piece
+        if merged and a <= merged[-1][1] + 1e-6:
+            merged[-1] = (merged[-1][0], max(merged[-1][1], b))
+        else:
+            merged.append((a, b))
+    sc = max([1.0] + [abs(x) for iv in exp for x in iv])
+    same = len(merged) == len(exp) and all(abs(a - c_) <= 1e-6 * sc and abs(b - e_) <= 1e-6 * sc for (a, b), (c_, e_) in zip(merged, exp))
+    if not same:
+        kind = fam + (':vertical_in_face_axes' if mode == 'perp_x' else '') + ':pieces'
+        ctx.violation(kind, 'pieces along the cut line %r, the face meets the plane in %r' % (
+            [(round(a, 6), round(b, 6)) for a, b in merged], [(round(a, 6), round(b, 6)) for a, b in exp]), desc)
+
+
 def fam_polyface(ctx, rng):
     pf = Bd.prism(rng)
     c = pf.center
@@ -504,6 +571,82 @@ def fam_polyface(ctx, rng):
         ok = any(abs(float(X.dot(X.fpt(f.normal), X.sub(fg, X.fpt(f.plane.o))))) < 1e-6 for f in pf.faces)
         if not ok:
             ctx.violation(fam + ':off_faces', 'point %r is on no face plane' % (g,), desc)
+
+
+def fam_polyface_rectilinear(ctx, rng):
+    """L / U / stepped prisms (several faces share a normal but lie in different planes), faces in the factory order or shuffled, in a
+    random rational frame, met by a ray or segment aimed through the solid: the returned points are exactly the crossings with the
+    faces (exact line/plane crossing + exact containment per face)"""
+    cells = G.polyomino(rng, ncells=rng.randint(3, 8), w=4, h=4)
+    loop = [(2.0 * x, 2.0 * y) for x, y in G.cells_boundary(cells)[0]]
+    frame = G.rational_frame(rng); o = G.rpt3(rng, 30)
+    hgt = G.dy(rng.uniform(1, 6))
+    base = Face3D([P3(G.embed(frame, o, p)) for p in loop])
+    pf = Polyface3D.from_offset_face(base, hgt)
+    order = 'factory'
+    if rng.random() < 0.5:
+        fs = list(pf.faces); rng.shuffle(fs); order = 'shuffled'
+        pf = Polyface3D.from_faces(fs, 0.001)
+    cell = rng.choice(sorted(cells))
+    nrm = base.normal
+    tgt2 = (2.0 * cell[0] + G.dy(rng.uniform(0.3, 1.7)), 2.0 * cell[1] + G.dy(rng.uniform(0.3, 1.7)))
+    tz = G.dy(rng.uniform(0.1, 0.9) * hgt)
+    t3 = G.embed(frame, o, tgt2)
+    t3 = tuple(t3[i] + tz * nrm[i] * (1 if rng.random() < 2 else 1) for i in range(3))
+    # the factory extrudes along the face normal: find the side by looking at the far cap
+    v = G.rvec3(rng, 12)
+    if rng.random() < 0.4:
+        # nearly along the long direction of the base: the line passes several walls that share a normal
+        ax = frame[rng.choice([0, 1])]
+        v = tuple(G.dy(12 * ax[i] + rng.uniform(-0.6, 0.6)) for i in range(3))
+    if all(abs(c) < 1e-3 for c in v):
+        return
+    kind = rng.choice(['seg', 'ray'])
+    t0 = G.dy(rng.uniform(0.3, 2.0))
+    start = P3(tuple(G.dy(t3[i] - t0 * v[i]) for i in range(3)))
+    L = Ray3D(start, V3(v)) if kind == 'ray' else LineSegment3D(start, V3(tuple(G.dy(c * rng.choice([1.0, 2.5, 4.0])) for c in v)))
+    fp, fv = X.fpt(L.p), X.fpt(L.v)
+    exp = []
+    for f in pf.faces:
+        lp = [X.fpt(q_) for q_ in f.boundary]
+        nw = X.newell(lp)
+        d = X.dot(nw, fv)
+        if d == 0:
+            if X.dot(nw, X.sub(lp[0], fp)) == 0:
+                return          # the line lies in a face plane
+            continue
+        u = X.dot(nw, X.sub(lp[0], fp)) / d
+        if abs(u) < EPS or (kind == 'seg' and abs(u - 1) < EPS):
+            return
+        if u < 0 or (kind == 'seg' and u > 1):
+            continue
+        hit = X.add(fp, X.smul(u, fv))
+        k = max(range(3), key=lambda i: abs(nw[i]))
+        drop = lambda q_: tuple(q_[i] for i in range(3) if i != k)
+        l2 = [drop(q_) for q_ in lp]
+        ins = X.winding_inside(l2, drop(hit))
+        if ins is None or X.sqdist_to_boundary(l2, drop(hit)) < Fraction(1, 10 ** 6):
+            return              # grazes an edge of a face
+        if ins:
+            exp.append(hit)
+    fam = 'polyface3d.rectilinear.%s' % kind
+    desc = {'polyface': pf.to_dict(), 'line': L.to_dict(), 'order': order}
+    ctx.count(fam, key=(len(cells), len(exp), order), sample={'cells': len(cells), 'crossings': len(exp), 'order': order}, nontrivial=len(exp) > 0)
+    try:
+        res = pf.intersect_line_ray(L)
+    except Exception as e:
+        ctx.violation(fam + ':raises', '%r' % (e,), desc); return
+    res = list(res or [])
+    rem = list(exp)
+    for g in res:
+        fg = X.fpt(g)
+        m = [h_ for h_ in rem if X.pclose(h_, fg, 1e-7, 100.0)]
+        if not m:
+            ctx.violation(fam + ':spurious', 'returned point %r is not a crossing of the line with any face (crossings: %s)' % (
+                g, [[round(float(c), 6) for c in h_] for h_ in exp]), desc); return
+        rem.remove(m[0])
+    if rem:
+        ctx.violation(fam + ':missed', 'crossing(s) %s not returned (%d returned)' % ([[round(float(c), 6) for c in h_] for h_ in rem], len(res)), desc)
 
 
 def fam_polyface_plane(ctx, rng):
@@ -612,7 +755,7 @@ def fam_arc3d_plane(ctx, rng):
 
 
 FAMILIES = [(fam_axis_crossings, 30), (fam_polyface_plane, 40), (fam_lines2d, 60), (fam_arc_line, 40), (fam_line_plane, 30), (fam_plane_plane, 15), (fam_sphere, 30),
-            (fam_polygon_line, 30), (fam_face, 25), (fam_face_plane, 15), (fam_polyface, 8), (fam_arc3d_plane, 15)]
+            (fam_polygon_line, 30), (fam_face, 25), (fam_face_plane, 15), (fam_face_plane_exact, 40), (fam_polyface, 8), (fam_polyface_rectilinear, 40), (fam_arc3d_plane, 15)]
 
 
 def explore(ctx):
@@ -633,6 +776,10 @@ def replay(ctx, data):
         fams = [fam_plane_plane]
     if kind.startswith('face3d.plane'):
         fams = [fam_face_plane]
+    if kind.startswith('polyface3d.rectilinear'):
+        fams = [fam_polyface_rectilinear]
+    if kind.startswith('face3d.plane_exact'):
+        fams = [fam_face_plane_exact]
     for f in fams:
         for _ in range(3000):
             f(c2, c2.rng)
